@@ -410,6 +410,8 @@ static void run_case(int ki, int alg, int base, int pinroute)
 		}
 	}
 	hs_attack(p, k, k->kind == VH_K_OCT ? NULL : pub);
+	/* after hundreds of rejected mutants the unmutated token must still verify (no state carried between calls) */
+	try_token(M_BASE, 99, tok);
 	free(h);
 done:
 	free(tok);
